@@ -33,7 +33,7 @@ func init() {
 // sweep above 512 then passes through the exact fit of that record.
 const c09Q = "www.department-of-redundancy.subsidiary-office-west.example.org."
 
-var c09ShapeNames = []string{"A-qname", "A-other", "CNAME-suffix", "TXT200", "A-escaped", "AAAA-qname", "MX-suffix", "SRV", "TXT-filler", "NS-deleg", "A-glue"}
+var c09ShapeNames = []string{"A-qname", "A-other", "CNAME-suffix", "TXT200", "A-escaped", "AAAA-qname", "MX-suffix", "SRV", "TXT-filler", "NS-deleg", "A-glue", "NSEC-empty-bitmap", "IPSECKEY-host", "A-on-gateway"}
 
 // shapes 8..10 are used by the beyond-16384 space only (never drawn from the pool)
 const c09NSTarget = "ns1.delegated-child-zone.example.net."
@@ -81,6 +81,12 @@ func c09RR(sh, pos int) dns.RR {
 		return &dns.NS{Hdr: h("example.org.", dns.TypeNS), Ns: c09NSTarget}
 	case 10:
 		return &dns.A{Hdr: h(c09NSTarget, dns.TypeA), A: []byte{10, 0, byte(pos >> 8), byte(pos)}}
+	case 11:
+		return &dns.NSEC{Hdr: h(c09Q, dns.TypeNSEC), NextDomain: "a." + c09Q}
+	case 12:
+		return &dns.IPSECKEY{Hdr: h(c09Q, dns.TypeIPSECKEY), Precedence: 1, GatewayType: 3, Algorithm: 1, GatewayHost: "gw.some.long.other.zone.net.", PublicKey: "AQID"}
+	case 13:
+		return &dns.A{Hdr: h("gw.some.long.other.zone.net.", dns.TypeA), A: []byte{10, 1, byte(pos >> 8), byte(pos)}}
 	}
 	panic("shape")
 }
@@ -95,6 +101,7 @@ type c09Msg struct {
 	compress   bool
 	tc         bool
 	tsig       bool // TSIG as very last additional record
+	inexact    bool // the message holds types outside the "common types" of the statement's last clause
 	largeT     int  // > 0 (beyond-16384 space): the 4th filler TXT is sized so that the NS target name starts at this offset of the compressed message
 }
 
@@ -258,7 +265,7 @@ func c09Reply(r *fw.R, d c09Msg) {
 		prefixMemo[k] = c09PackLen(pm, true, buf)
 		return prefixMemo[k]
 	}
-	exact := true
+	exact := !d.inexact
 	for _, s := range d.shapes {
 		if s == c09ESC {
 			exact = false
@@ -375,6 +382,16 @@ func c09Reply(r *fw.R, d c09Msg) {
 		a.Packed, a.PackErr = len(pk), err
 
 		for _, v := range trunc.Check(before, size, a) {
+			if d.inexact {
+				// name the uncommon record shape in the key: a finding about one of them may not hide the others
+				seen := map[int]bool{}
+				for _, sh := range d.shapes {
+					if sh >= 11 && !seen[sh] && c09ShapeNames[sh] != "A-on-gateway" {
+						seen[sh] = true
+						v.Key += "/" + c09ShapeNames[sh]
+					}
+				}
+			}
 			r.Fail(v.Key, "Truncate(%d) on {%s} (uncompressed %d, compressed %d octets): %s; afterwards answer=%d authority=%d additional=%d(+%d OPT) Compress=%v Truncated=%v packed=%d",
 				size, d, U, C, v.Text, a.KA, a.KN, a.KX, a.OPTs, m.Compress, m.Truncated, a.Packed)
 		}
@@ -612,6 +629,34 @@ func c09Spaces(c *fw.Ctx) {
 								shapes = append(shapes, 10)
 							}
 							d := c09Msg{na: 4, nn: 1, nx: g, shapes: shapes, opt: opt, largeT: T, compress: f&1 != 0, tc: f&2 != 0}
+							emit(func(r *fw.R) { c09Reply(r, d) })
+						}
+					}
+				}
+			}
+		})
+
+	c.Space("uncommon-types", "replies built from records whose length estimate has its own code path: n = 1..40 NSEC records with an empty type bitmap in the answer section; one IPSECKEY with a host gateway in the answer section and n = 1..40 A records owned by that gateway name in the additional section; × OPT {none, last} × Compress; every size 505..length+2 (and the floor sizes): all clauses of the statement, in particular 'a message that already fits keeps all its records'; non-trivial: some size drops a record", true,
+		func(emit func(func(*fw.R))) {
+			for n := 1; n <= 40; n++ {
+				for kind := 0; kind < 2; kind++ {
+					for opt := 0; opt <= 1; opt++ {
+						for f := 0; f < 2; f++ {
+							var d c09Msg
+							if kind == 0 {
+								sh := make([]int, n)
+								for i := range sh {
+									sh[i] = 11
+								}
+								d = c09Msg{na: n, shapes: sh, opt: opt, compress: f&1 != 0}
+							} else {
+								sh := []int{12}
+								for i := 0; i < n; i++ {
+									sh = append(sh, 13)
+								}
+								d = c09Msg{na: 1, nx: n, shapes: sh, opt: opt, compress: f&1 != 0}
+							}
+							d.inexact = true
 							emit(func(r *fw.R) { c09Reply(r, d) })
 						}
 					}
